@@ -59,6 +59,8 @@ class C11(Property):
         if " | " not in impl:
             return "malformed output " + impl[:100]
         parts = impl.split(" | ")
+        if len(parts) == 5 and ("-TREES-DIFFER" in parts[4]):
+            return "text_eq between tokens of trees that carry a resolver (all sharing one interner) differs from text_eq between the same tokens of plain trees: " + parts[4][:200]
         if len(parts) != 4:
             return "malformed output " + impl[:100]
         descr, rows, dumps, same = parts
